@@ -11,17 +11,49 @@ theorem qLen_matches (W : Cigar) (h : W.all isMatchOp = true) : qLen W = refLen 
     simp only [List.all_cons, Bool.and_eq_true, isMatchOp] at h
     simp [qLen, refLen, consumesRef, consumesQuery, h.1, ih h.2]
 
+/-- at the end of the window the walk stops with what it has -/
+theorem prefixGo_ends (f : Bool) (k rp qp : Nat) (X : Cigar) (hX : endsWindow f X = true) (hk : rp < k) :
+    prefixGo f k rp qp X = .ok (rp, qp) := by
+  induction X with
+  | nil => simp [prefixGo, hk]
+  | cons x rest ih =>
+    obtain ⟨op, len⟩ := x
+    simp only [endsWindow] at hX
+    by_cases h45 : (op == 4 || op == 5) = true
+    · simp only [h45, if_true] at hX
+      have hm : isMatch op = false := by
+        simp only [Bool.or_eq_true, beq_iff_eq] at h45
+        rcases h45 with rfl | rfl <;> decide
+      have h1 : (op == 1) = false := by
+        simp only [Bool.or_eq_true, beq_iff_eq] at h45
+        rcases h45 with rfl | rfl <;> decide
+      have h2 : (op == 2) = false := by
+        simp only [Bool.or_eq_true, beq_iff_eq] at h45
+        rcases h45 with rfl | rfl <;> decide
+      simp [prefixGo, hm, h1, h2, h45, ih hX]
+    · simp only [h45, Bool.false_eq_true, if_false, Bool.and_eq_true, beq_iff_eq] at hX
+      obtain ⟨hf, rfl⟩ := hX
+      simp [prefixGo, isMatch, hf]
+
+theorem endsWindow_of_clips (f : Bool) (X : Cigar) (h : X.all isClip = true) : endsWindow f X = true := by
+  induction X with
+  | nil => rfl
+  | cons x rest ih =>
+    obtain ⟨op, len⟩ := x
+    simp only [List.all_cons, Bool.and_eq_true, isClip] at h
+    simp [endsWindow, h.1, ih h.2]
+
 /-- prefix length over a run of M/=/X blocks followed by `X`: either the run is long enough or only clips follow -/
 theorem prefixGo_matches (f : Bool) (k : Nat) (Ms X : Cigar) (hM : Ms.all isMatchOp = true) (rp qp : Nat) (hk : rp < k)
-    (hreach : k ≤ rp + refLen Ms ∨ X.all isClip = true) :
+    (hreach : k ≤ rp + refLen Ms ∨ endsWindow f X = true) :
     prefixGo f k rp qp (Ms ++ X) = .ok (min k (rp + refLen Ms), qp + (min k (rp + refLen Ms) - rp)) := by
   induction Ms generalizing rp qp with
   | nil =>
-    have hX : X.all isClip = true := by
+    have hX : endsWindow f X = true := by
       rcases hreach with h | h
       · simp only [refLen] at h; omega
       · exact h
-    simp only [List.nil_append, prefixGo_clips f k rp qp X hX, hk, if_true, refLen]
+    simp only [List.nil_append, prefixGo_ends f k rp qp X hX hk, refLen]
     congr 2 <;> omega
   | cons x xs ih =>
     obtain ⟨op, len⟩ := x
@@ -38,7 +70,7 @@ theorem prefixGo_matches (f : Bool) (k : Nat) (Ms X : Cigar) (hM : Ms.all isMatc
       congr 2 <;> omega
 
 theorem prefix_matches (f : Bool) (k : Nat) (Ms X : Cigar) (hM : Ms.all isMatchOp = true) (hk : 0 < k)
-    (hreach : k ≤ refLen Ms ∨ X.all isClip = true) :
+    (hreach : k ≤ refLen Ms ∨ endsWindow f X = true) :
     cigarPrefixLength f (Ms ++ X) k = .ok (min k (refLen Ms), min k (refLen Ms)) := by
   unfold cigarPrefixLength
   rw [prefixGo_matches f k Ms X hM 0 0 hk (by simpa using hreach)]
@@ -46,7 +78,7 @@ theorem prefix_matches (f : Bool) (k : Nat) (Ms X : Cigar) (hM : Ms.all isMatchO
 
 /-- right half starting with the deletion of the variant -/
 theorem prefix_del (f : Bool) (L oh : Nat) (W2 B : Cigar) (hoh : 0 < oh) (hW2 : W2.all isMatchOp = true)
-    (hreach : oh ≤ refLen W2 ∨ B.all isClip = true) :
+    (hreach : oh ≤ refLen W2 ∨ endsWindow f B = true) :
     cigarPrefixLength f ((2, L) :: (W2 ++ B)) (L + oh) = .ok (L + min oh (refLen W2), min oh (refLen W2)) := by
   unfold cigarPrefixLength
   have h1 : ¬ (0 + L ≥ L + oh) := by omega
@@ -60,7 +92,7 @@ theorem prefix_del (f : Bool) (L oh : Nat) (W2 B : Cigar) (hoh : 0 < oh) (hW2 : 
 
 /-- right half starting with the insertion of the variant -/
 theorem prefix_ins (f : Bool) (n oh : Nat) (W2 B : Cigar) (hoh : 0 < oh) (hW2 : W2.all isMatchOp = true)
-    (hreach : oh ≤ refLen W2 ∨ B.all isClip = true) :
+    (hreach : oh ≤ refLen W2 ∨ endsWindow f B = true) :
     cigarPrefixLength f ((1, n) :: (W2 ++ B)) oh = .ok (min oh (refLen W2), n + min oh (refLen W2)) := by
   unfold cigarPrefixLength
   have hm : isMatch 1 = false := by decide
@@ -144,8 +176,8 @@ theorem window_canonical (f14 : Bool) (R query : Seq) (pos : Nat) (ref a : Seq) 
     (hR : slice R pos ref.length = ref)
     (hcov : pos + ref.length ≤ start + refLen A + refLen (W1 ++ (op, len) :: W2))
     (hin : start + refLen A + refLen (W1 ++ (op, len) :: W2) ≤ R.length)
-    (hleft : oh ≤ refLen W1 + d ∨ A.all isClip = true)
-    (hright : pos + ref.length + oh ≤ start + refLen A + refLen (W1 ++ (op, len) :: W2) ∨ B.all isClip = true)
+    (hleft : oh ≤ refLen W1 + d ∨ endsWindow f14 A.reverse = true)
+    (hright : pos + ref.length + oh ≤ start + refLen A + refLen (W1 ++ (op, len) :: W2) ∨ endsWindow f14 B = true)
     (hq : slice query (qLen A) (qLen (W1 ++ (op, len) :: W2)) =
       slice (hapOf R pos ref.length a) (start + refLen A) (qLen (W1 ++ (op, len) :: W2))) :
     ∃ lp rp, window f14 ⟨pos, ref, alts⟩ query (A ++ W1 ++ (op, len) :: (W2 ++ B)) (A ++ W1).length d
@@ -158,7 +190,6 @@ theorem window_canonical (f14 : Bool) (R query : Seq) (pos : Nat) (ref a : Seq) 
   generalize hs : start + refLen A = s at *
   have hrev : ∀ X : Cigar, X ++ (A ++ W1).reverse = (X ++ W1.reverse) ++ A.reverse := by
     intro X; simp [List.reverse_append, List.append_assoc]
-  have hAc : A.reverse.all isClip = true ↔ A.all isClip = true := by rw [all_reverse]
   rcases hshape with ⟨hm, hd, hal⟩ | ⟨rfl, rfl, rfl, rfl, h0⟩ | ⟨rfl, rfl, hl, rfl, h0⟩
   · -- the variant position lies in an M/=/X block
     have hcr : consumesRef op = true := by simp [consumesRef, hm]
@@ -180,7 +211,7 @@ theorem window_canonical (f14 : Bool) (R query : Seq) (pos : Nat) (ref a : Seq) 
       rw [hMLr]
       rcases hleft with h | h
       · left; exact h
-      · right; exact hAc.2 h)
+      · right; exact h)
     have hpr := prefix_matches f14 (ref.length + oh) ((op, len - d) :: W2) B hMR (by omega) (by
       rw [hMRr]
       rcases hright with h | h
@@ -210,7 +241,7 @@ theorem window_canonical (f14 : Bool) (R query : Seq) (pos : Nat) (ref a : Seq) 
       rw [refLen_reverse]
       rcases hleft with h | h
       · left; omega
-      · right; exact hAc.2 h)
+      · right; exact h)
     rw [refLen_reverse] at hpl
     have hpr := prefix_del f14 ref.length oh W2 B hoh hW2 (by
       rcases hright with h | h
@@ -237,7 +268,7 @@ theorem window_canonical (f14 : Bool) (R query : Seq) (pos : Nat) (ref a : Seq) 
       rw [refLen_reverse]
       rcases hleft with h | h
       · left; omega
-      · right; exact hAc.2 h)
+      · right; exact h)
     rw [refLen_reverse] at hpl
     have hpr := prefix_ins f14 len oh W2 B hoh hW2 (by
       rcases hright with h | h
